@@ -119,6 +119,13 @@ def shard(job):
                 for sfx in SUFFIXES:
                     check_equal(col, "public-suffix", u, "http://%s.%s%s" % (stem, sfx, tail), kw, r0)
                     check_equal(col, "public-suffix+lang+port", u, "http://fr-FR.%s.%s:8080%s" % (stem, sfx.upper(), tail), kw, r0)
+                # fully-qualified spellings (trailing dot) among themselves: the suffix is ignored there too
+                udot = "http://%s.com.%s" % (stem, tail)
+                rdot = fp(udot, kw)
+                if rdot[0] == "ok":
+                    for sfx in SUFFIXES[:4]:
+                        check_equal(col, "public-suffix(trailing-dot)", udot, "http://%s.%s.%s" % (stem, sfx, tail), kw, rdot)
+                        check_equal(col, "public-suffix(trailing-dot)+lang+port", udot, "http://fr-FR.%s.%s.:8080%s" % (stem, sfx.upper(), tail), kw, rdot)
     # a language label on a host with only two labels must stay
     for kw in ({}, {"strip_suffix": True}):
         for c in ("fr", "de", "us"):
